@@ -343,4 +343,131 @@ theorem gen_diverges_on_self_slice (fuel : Nat) :
       intro ds''
       exact ih m (by omega) ds''
 
+/-! ### termination -/
+
+theorem genN_returns (env : Env) (fuel : Nat) (e : Ty)
+    (h : ∀ ds, ∃ v ds', gen env fuel e ds = some (v, ds')) :
+    ∀ n ds, ∃ es ds', genN env fuel e n ds = some (es, ds') ∧ es.length = n
+  | 0, ds => ⟨[], ds, by simp [genN], rfl⟩
+  | n + 1, ds => by
+    obtain ⟨v, ds1, hv⟩ := h ds
+    obtain ⟨es, ds2, hes, hl⟩ := genN_returns env fuel e h n ds1
+    exact ⟨v :: es, ds2, by simp [genN, hv, hes], by simp [hl]⟩
+
+theorem genEntries_returns (env : Env) (fuel : Nat) (k e : Ty)
+    (hk : ∀ ds, ∃ v ds', gen env fuel k ds = some (v, ds'))
+    (he : ∀ ds, ∃ v ds', gen env fuel e ds = some (v, ds')) :
+    ∀ n ds, ∃ kvs ds', genEntries env fuel k e n ds = some (kvs, ds')
+  | 0, ds => ⟨[], ds, by simp [genEntries]⟩
+  | n + 1, ds => by
+    obtain ⟨kv, ds1, hkv⟩ := hk ds
+    obtain ⟨v, ds2, hv⟩ := he ds1
+    obtain ⟨rest, ds3, hr⟩ := genEntries_returns env fuel k e hk he n ds2
+    exact ⟨(kv, v) :: rest, ds3, by simp [genEntries, hkv, hv, hr]⟩
+
+theorem genFields_returns (env : Env) (fuel : Nat) :
+    ∀ (fs : List Field), (∀ f ∈ fs, dataIgnored f = false → ∀ ds, ∃ v ds', gen env fuel f.ty ds = some (v, ds')) →
+      ∀ ds, ∃ vals ds', genFields env fuel fs ds = some (vals, ds')
+  | [], _, ds => ⟨[], ds, by simp [genFields]⟩
+  | f :: fs, h, ds => by
+    have ih := genFields_returns env fuel fs (fun g hg => h g (by simp [hg]))
+    by_cases hi : dataIgnored f = true
+    · obtain ⟨vals, ds', hv⟩ := ih ds
+      exact ⟨vals, ds', by simp [genFields, hi, hv]⟩
+    · have hi' : dataIgnored f = false := by simpa using hi
+      obtain ⟨v, ds1, hv⟩ := h f (by simp) hi' ds
+      obtain ⟨rest, ds2, hr⟩ := ih ds1
+      exact ⟨(f.name, v) :: rest, ds2, by simp [genFields, hi', hv, hr]⟩
+
+theorem genMembers_returns (env : Env) (fuel : Nat) :
+    ∀ (ms : List Ty), (∀ m ∈ ms, ∀ ds, ∃ v ds', gen env fuel m ds = some (v, ds')) →
+      ∀ ds, ∃ vals ds', genMembers env fuel ms ds = some (vals, ds') ∧ vals.length = ms.length
+  | [], _, ds => ⟨[], ds, by simp [genMembers], rfl⟩
+  | m :: ms, h, ds => by
+    obtain ⟨v, ds1, hv⟩ := h m (by simp) ds
+    obtain ⟨rest, ds2, hr, hl⟩ := genMembers_returns env fuel ms (fun g hg => h g (by simp [hg])) ds1
+    exact ⟨(nameOfTy env m, v) :: rest, ds2, by simp [genMembers, hv, hr], by simp [hl]⟩
+
+/-- **C15 (termination)**: when the static check `returns env fuel t` holds — every named type is
+declared, no unsupported basic kind, every enum has an exported constant, every union a member, and
+the recursion of the generated functions bottoms out within `fuel` nested calls (no type reaches
+itself through a non-empty container, a field or a union member) — the generated function returns
+a value, whatever the draws. -/
+theorem C15_terminates (env : Env) : ∀ (fuel : Nat) (t : Ty), returns env fuel t = true →
+    ∀ ds, ∃ v ds', gen env fuel t ds = some (v, ds')
+  | 0, _, h => by simp [returns] at h
+  | fuel + 1, t, h => by
+    have ih := C15_terminates env fuel
+    intro ds
+    cases t with
+    | basic g bk =>
+      cases bk <;> simp [returns] at h <;> simp [gen, draw] <;> (cases ds <;> simp)
+    | time d => simp [gen]
+    | arr n e =>
+      simp only [returns, Bool.or_eq_true, beq_iff_eq] at h
+      by_cases hn : n ≥ 0
+      · simp only [gen, hn, if_true]
+        rcases h with h0 | he
+        · subst h0
+          exact ⟨.list false false [], ds, by simp [genN]⟩
+        · obtain ⟨es, ds', hes, _⟩ := genN_returns env fuel e (ih e he) n.toNat ds
+          exact ⟨.list false false es, ds', by simp [hes]⟩
+      · simp only [gen, hn, if_false]
+        rcases h with h0 | he
+        · omega
+        · obtain ⟨es, ds', hes, _⟩ := genN_returns env fuel e (ih e he) (3 + (draw ds).1 % 5) (draw ds).2
+          exact ⟨.list true false es, ds', by simp [hes]⟩
+    | map k e =>
+      simp only [returns, Bool.and_eq_true] at h
+      obtain ⟨kvs, ds', hk⟩ := genEntries_returns env fuel k e (ih k h.1) (ih e h.2) (40 + (draw ds).1 % 10) (draw ds).2
+      exact ⟨.map false kvs, ds', by simp [gen, hk]⟩
+    | ptr e =>
+      simp only [returns] at h
+      simpa [gen] using ih e h ds
+    | ref q =>
+      simp only [returns] at h
+      cases hf : env.find? q with
+      | none => simp [hf] at h
+      | some d =>
+        simp only [hf] at h
+        cases hb : d.body with
+        | named u =>
+          simp only [hb] at h
+          simpa [gen, hf, hb] using ih u h ds
+        | enum un bk ms io =>
+          simp only [hb, Bool.not_eq_true'] at h
+          have hne : (exportedMembers ms).length > 0 := by
+            cases hex : exportedMembers ms with
+            | nil => simp [hex] at h
+            | cons a l => simp
+          have hlt : (draw ds).1 % (exportedMembers ms).length < (exportedMembers ms).length := Nat.mod_lt _ hne
+          simp only [gen, hf, hb]
+          rw [List.getElem?_eq_getElem hlt]
+          simp [h]
+        | struct fs cs im =>
+          simp only [hb] at h
+          have hfs : ∀ f ∈ fs, dataIgnored f = false → ∀ ds, ∃ v ds', gen env fuel f.ty ds = some (v, ds') := by
+            intro f hf hi
+            exact ih f.ty (returnsFields_mem env fuel fs h f hf hi)
+          obtain ⟨vals, ds', hv⟩ := genFields_returns env fuel fs hfs ds
+          exact ⟨.struct vals, ds', by simp [gen, hf, hb, hv]⟩
+        | union ms =>
+          simp only [hb, Bool.and_eq_true, Bool.not_eq_true'] at h
+          have hms : ∀ m ∈ ms, ∀ ds, ∃ v ds', gen env fuel m ds = some (v, ds') :=
+            fun m hm => ih m (returnsAll_mem env fuel ms h.2 m hm)
+          obtain ⟨vals, ds1, hv, hl⟩ := genMembers_returns env fuel ms hms ds
+          have hne : vals.length > 0 := by
+            rw [hl]
+            cases ms with
+            | nil => simp at h
+            | cons a l => simp
+          have hlt : (draw ds1).1 % vals.length < vals.length := Nat.mod_lt _ hne
+          have hnemp : vals.isEmpty = false := by
+            cases vals with
+            | nil => simp at hne
+            | cons a l => rfl
+          simp only [gen, hf, hb, hv, Option.bind]
+          rw [List.getElem?_eq_getElem hlt]
+          simp [hnemp]
+
 end Gomacro.RandSem
